@@ -2,7 +2,7 @@
    argument tokens in, an outcome and result tokens out.  All calls into the
    models are made here, in Gallina; the hand-written OCaml only tokenises. *)
 From Coq Require Import String Ascii.
-From Dryoc Require Import Lib.Outcome Impl.Blake2b Impl.Kdf.
+From Dryoc Require Import Lib.Outcome Impl.Blake2b Impl.Kdf Impl.Poly1305 Impl.Hashes Impl.SecretBox Impl.SecretStream.
 Open Scope Z_scope.
 
 Inductive tok :=
@@ -12,6 +12,46 @@ Inductive tok :=
 | TL (l : list tok).
 
 Definition out1 (o : outcome bytes) : outcome (list tok) := omap (fun b => [TB b]) o.
+Definition outu (o : outcome unit) : outcome (list tok) := omap (fun _ => []) o.
+
+Definition tok_bytes (t : tok) : bytes := match t with TB b => b | _ => [] end.
+Definition tok_chunks (t : tok) : list bytes := match t with TL l => map tok_bytes l | _ => [] end.
+Definition tok_key (t : tok) : option bytes := match t with TB b => Some b | _ => None end.
+
+(* class code of an outcome as a token: 0 ok, 1 err, 2 panic *)
+Definition class_tok {A} (o : outcome A) : tok :=
+  TI (match o with Ok _ => 0 | Err => 1 | Panic => 2 end).
+
+(* secret stream histories: steps
+     [ i0 xM xAD iTAG ]  push on the push state      -> [ class xC xK xNONCE ]
+     [ i1 ]              rekey the push state        -> [ xK xNONCE ]
+     [ i2 xC xAD xMBUF iTAGVAR ] classic pull        -> [ class iLEN xMBUF iTAGVAR xK xNONCE ]
+     [ i3 ]              rekey the pull state        -> [ xK xNONCE ]
+     [ i4 xC xAD ]       object-API pull             -> [ class xM iTAG xK xNONCE ] *)
+Import SecretStreamImpl.
+Definition st_toks (s : state) : list tok := [TB (st_k s); TB (st_nonce s)].
+Fixpoint stream_steps (steps : list tok) (sp sl : state) : list tok :=
+  match steps with
+  | [] => []
+  | TL [TI 0; TB m; TB ad; TI tag] :: rest =>
+      let '(o, sp') := push_c sp (length m + ABYTES) m ad tag in
+      TL (class_tok o :: TB (match o with Ok c => c | _ => [] end) :: st_toks sp') :: stream_steps rest sp' sl
+  | TL [TI 1] :: rest => let sp' := rekey_c sp in TL (st_toks sp') :: stream_steps rest sp' sl
+  | TL [TI 2; TB c; TB ad; TB mbuf; TI tagvar] :: rest =>
+      let '(o, sl', mbuf', tagvar') := pull_c sl mbuf tagvar c ad in
+      TL (class_tok o :: TI (match o with Ok n => Z.of_nat n | _ => 0 end) :: TB mbuf' :: TI tagvar' :: st_toks sl')
+        :: stream_steps rest sp sl'
+  | TL [TI 3] :: rest => let sl' := rekey_c sl in TL (st_toks sl') :: stream_steps rest sp sl'
+  | TL [TI 4; TB c; TB ad] :: rest =>
+      let '(o, sl') := obj_pull_c sl c ad in
+      TL (class_tok o :: TB (match o with Ok (m, _) => m | _ => [] end)
+                      :: TI (match o with Ok (_, t) => t | _ => 0 end) :: st_toks sl') :: stream_steps rest sp sl'
+  | _ :: rest => TL [TI (-1)] :: stream_steps rest sp sl
+  end.
+
+(* result of an opening function that returns the caller buffer *)
+Definition out_open (r : outcome unit * bytes) : outcome (list tok) :=
+  Ok [class_tok (fst r); TB (snd r)].
 
 Definition run (op : string) (args : list tok) : option (outcome (list tok)) :=
   if String.eqb op "kdf.derive" then
@@ -26,4 +66,68 @@ Definition run (op : string) (args : list tok) : option (outcome (list tok)) :=
     | [TI len; TB input; TB key] => Some (out1 (Blake2bImpl.hash_c (Z.to_nat len) input (Some key)))
     | _ => None
     end
+  else if String.eqb op "generichash.hash" then
+    match args with
+    | [TI len; TB input; k] => Some (out1 (HashesImpl.generichash (Z.to_nat len) input (tok_key k)))
+    | _ => None
+    end
+  else if String.eqb op "generichash.chunks" then
+    match args with
+    | [TI len; k; cs; TI fin] => Some (out1 (HashesImpl.generichash_chunks (Z.to_nat len) (tok_key k) (tok_chunks cs) (Z.to_nat fin)))
+    | _ => None
+    end
+  else if String.eqb op "blake2b.longhash" then
+    match args with
+    | [TI len; TB input] => Some (out1 (Blake2bImpl.longhash_c (Z.to_nat len) input))
+    | _ => None
+    end
+  else if String.eqb op "onetimeauth.mac" then
+    match args with [TB key; TB msg] => Some (Ok [TB (HashesImpl.onetimeauth key msg)]) | _ => None end
+  else if String.eqb op "onetimeauth.chunks" then
+    match args with [TB key; cs] => Some (Ok [TB (HashesImpl.onetimeauth_chunks key (tok_chunks cs))]) | _ => None end
+  else if String.eqb op "onetimeauth.verify" then
+    match args with [TB mac; TB msg; TB key] => Some (outu (HashesImpl.onetimeauth_verify mac msg key)) | _ => None end
+  else if String.eqb op "auth.mac" then
+    match args with [TB key; TB msg] => Some (Ok [TB (HashesImpl.auth key msg)]) | _ => None end
+  else if String.eqb op "auth.chunks" then
+    match args with [TB key; cs] => Some (Ok [TB (HashesImpl.auth_chunks key (tok_chunks cs))]) | _ => None end
+  else if String.eqb op "auth.verify" then
+    match args with [TB mac; TB msg; TB key] => Some (outu (HashesImpl.auth_verify mac msg key)) | _ => None end
+  else if String.eqb op "hash.sha512" then
+    match args with [TB msg] => Some (Ok [TB (HashesImpl.hash_sha512 msg)]) | _ => None end
+  else if String.eqb op "hash.sha512_chunks" then
+    match args with [cs] => Some (Ok [TB (HashesImpl.hash_sha512 (concat (tok_chunks cs)))]) | _ => None end
+  else if String.eqb op "shorthash.hash" then
+    match args with [TB key; TB msg] => Some (Ok [TB (HashesImpl.shorthash key msg)]) | _ => None end
+  else if String.eqb op "core.hsalsa20" then
+    match args with [TB key; TB input] => Some (Ok [TB (HashesImpl.hsalsa20 key input)]) | _ => None end
+  else if String.eqb op "core.hchacha20" then
+    match args with [TB key; TB input] => Some (Ok [TB (HashesImpl.hchacha20 key input)]) | _ => None end
+  else if String.eqb op "utils.increment" then
+    match args with [TB l] => Some (Ok [TB (HashesImpl.increment l)]) | _ => None end
+  else if String.eqb op "secretbox.easy" then
+    match args with [TB cbuf; TB m; TB n; TB k] => Some (out1 (SecretBoxImpl.easy_c cbuf m n k)) | _ => None end
+  else if String.eqb op "secretbox.detached" then
+    match args with
+    | [TB cbuf; TB m; TB n; TB k] => Some (omap (fun p => [TB (fst p); TB (snd p)]) (SecretBoxImpl.detached_c cbuf m n k))
+    | _ => None end
+  else if String.eqb op "secretbox.easy_inplace" then
+    match args with [TB d; TB n; TB k] => Some (out1 (SecretBoxImpl.easy_inplace_c d n k)) | _ => None end
+  else if String.eqb op "secretbox.open_easy" then
+    match args with [TB mbuf; TB c; TB n; TB k] => Some (out_open (SecretBoxImpl.open_easy_c mbuf c n k)) | _ => None end
+  else if String.eqb op "secretbox.open_detached" then
+    match args with [TB mbuf; TB mac; TB c; TB n; TB k] => Some (out_open (SecretBoxImpl.open_detached_c mbuf mac c n k)) | _ => None end
+  else if String.eqb op "secretbox.open_easy_inplace" then
+    match args with [TB c; TB n; TB k] => Some (out_open (SecretBoxImpl.open_easy_inplace_c c n k)) | _ => None end
+  else if String.eqb op "secretbox.open_detached_inplace" then
+    match args with [TB d; TB mac; TB n; TB k] => Some (out_open (SecretBoxImpl.open_detached_inplace_c d mac n k)) | _ => None end
+  else if String.eqb op "stream.history" then
+    match args with
+    | [TB kp; TB np; TB kl; TB nl; TL steps] =>
+        Some (Ok (stream_steps steps (mk_state kp np) (mk_state kl nl)))
+    | _ => None end
+  else if String.eqb op "stream.init" then
+    match args with
+    | [TB header; TB key] => Some (Ok (st_toks (init_c header key)))
+    | _ => None end
   else None.
